@@ -415,6 +415,10 @@ Proof.
       rewrite Hh0 in TT. unfold nacc in Hone. rewrite Ei in Hone. rewrite SI.sumf_nil in Hone. lia.
 Qed.
 
+Theorem sys_returns : forall ys s, sys_run g (sys_init callspecs false) ys = Some s -> sys_final g s ->
+  forall i c0, nth_error (C.callers (cl s)) i = Some c0 -> C.caller_done c0 = true.
+Proof. intros ys s H F. apply sys_progress; auto. eapply linv_run; [apply linv_init|exact H]. Qed.
+
 (* REFINEMENT: at the end of every maximal execution every Execute has returned CallStep of its own input *)
 Theorem sys_refines : forall ys s, sys_run g (sys_init callspecs false) ys = Some s -> sys_final g s ->
   forall i x, nth_error callspecs i = Some x -> sys_result s i = Some (spec_callstep g (C.cs_input x)).
